@@ -132,6 +132,10 @@ def _annotation_strings(tree: ast.AST) -> list[ast.Constant]:
 				out.append(n)
 
 	for node in ast.walk(tree):
+		# `T = TypeVar('T')`: the string is the NAME of the type variable again
+		if isinstance(node, ast.Call) and isinstance(node.func, ast.Name) and node.func.id in ('TypeVar', 'TypeVarTuple', 'ParamSpec') and node.args:
+			if isinstance(node.args[0], ast.Constant) and isinstance(node.args[0].value, str):
+				out.append(node.args[0])
 		if isinstance(node, (ast.FunctionDef, ast.AsyncFunctionDef)):
 			from_ann(node.returns)
 			for a in [*node.args.posonlyargs, *node.args.args, *node.args.kwonlyargs, node.args.vararg, node.args.kwarg]:
@@ -314,7 +318,7 @@ SEEDS = ['ab', 'abc', 'abcd', 'a_b', 'a__b', 'ab_', 'ab__', 'q', 'w', 'zz', 'val
 	'quite_a_long_identifier_that_goes_on_and_on_for_a_while_x', 'quite_a_long_identifier_that_goes_on_and_on_for_a_while_xy']
 CLASS_SEEDS = ['Ab', 'Abc', 'Abcd', 'A_b', 'A__b', 'Q', 'Qq', 'Node', 'Nodes', 'NodeX', 'Box', 'Boxed', 'Unit', 'Units', 'Shape', 'Shapes',
 	'Item', 'ItemZ', 'Acc', 'Accum', 'Kind', 'Kinds', 'Tree', 'Trees', 'Left', 'LeftMost', 'Cell', 'Cells', 'Cell_', 'Cell__2']
-RESERVED_STEMS = ['self', 'cls', 'super', 'init', '__init__', 'len', 'print', 'int', 'float', 'bool', 'const', 'const', 'str', 'list', 'dict', 'range', 'enumerate', 'type', 'object',
+RESERVED_STEMS = ['self', 'cls', 'super', 'Iterator', 'ItemsView', 'init', '__init__', 'len', 'print', 'int', 'float', 'bool', 'const', 'const', 'str', 'list', 'dict', 'range', 'enumerate', 'type', 'object',
 	'None', 'Enum', 'lambda', 'class', 'def', 'new', 'delete', 'this', 'std', 'auto', 'template', 'operator', 'Empty', 'Unknown', 'if', 'for',
 	'func_call', 'function', 'closure', 'method', 'block', 'var', 'name', 'items', 'keys', 'values', 'append', 'pop', 'get', 'copy', 'raw', 'on', 'ref', 'addr']
 
@@ -364,6 +368,7 @@ def fresh_candidates(rng: random.Random, original: str, identifiers: list[str], 
 		rng.choice(['self', 'cls', 'super']) + rng.choice(['o', 'x', '_', '__', '2', 'ish', '_x', 'X']),   # this/class reference word as prefix
 		rng.choice(['x', 'do', 'my', 'a_', 'pre', 'post__']) + rng.choice(['__init__', '__init__', '__new__', '__eq__', '__name__']),  # dunder as suffix
 		rng.choice(['next_', 'to', 'make_', 'x']) + rng.choice([i for i in identifiers if i[:1].isupper()] or ['Item']),   # a (class) name as suffix
+		rng.choice(['it', 'my', 'is_', 'him', 'x_']) + rng.choice(['self', 'self', 'cls']),      # this/class reference word as SUFFIX
 		rng.choice(letters),                                                          # single letter
 		''.join(rng.choice(letters + '_') for _ in range(rng.randint(50, 90))) + 'z',  # long
 		core + core,                                                                  # the name doubled
@@ -405,6 +410,20 @@ def make_renaming(rng: random.Random, domain: dict[str, str], all_identifiers: s
 	if not names:
 		return {}
 	k = how_many if how_many is not None else rng.choice([1, 1, 2, 3, len(names), len(names), max(1, len(names) // 2)])
+	if related and rng.random() < 0.35:
+		# ORDER-REVERSING: two identifiers of the same kind a < b; a is renamed to b + 'z' + a, which sorts after b
+		kinds = sorted({kd for kd in domain.values()})
+		rng.shuffle(kinds)
+		prefer = [kd for kd in ('module', 'class', 'nested-class', 'param', 'local', 'method', 'function', 'classvar', 'enum-member') if kd in kinds]
+		for kd in (prefer[:1] if prefer and rng.random() < 0.5 else []) + kinds:
+			group = sorted(n for n in names if domain[n] == kd)
+			if len(group) < 2:
+				continue
+			a, b = sorted(rng.sample(group, 2))
+			us = Reserved.underscore_class(a)
+			cand = ('_' * us if us < 3 else '') + b.lstrip('_') + 'z' + a.lstrip('_')
+			if cand not in all_identifiers and reserved.fresh_ok(cand, a):
+				return {a: cand}
 	if related:
 		tied = [n for n in names if domain[n] in ('nested-class', 'enum-member', 'function', 'method') and (ties or {}).get(n)]
 		structural = [n for n in names if domain[n] in ('nested-class', 'enum-member', 'class', 'method')]
@@ -940,7 +959,7 @@ class NestGen:
 			# resolve it to the MODULE variable; half of the time the method's name ends with the name of the class
 			base_name = self.names.member(cls.member_names).lstrip('_')
 			mname = f"{base_name}{r.choice(['_', ''])}{cls.name}" if r.random() < 0.5 else base_name
-			if mname not in self.names.used or mname == base_name:
+			if (mname not in self.names.used or mname == base_name) and (mname == base_name and base_name not in (cls.member_names - {base_name, '_' + base_name, '__' + base_name}) or mname not in cls.member_names) and mname not in [f for f, _ in cls.all_fields()] and mname not in [m.name for m in cls.all_methods()] and mname not in [c for c, _ in cls.classvars]:
 				self.names.used.add(mname)
 				cls.member_names.add(mname)
 				sn: set[str] = {mname}
@@ -959,9 +978,41 @@ class NestGen:
 			lines.append('')
 		return cls, lines
 
+	def gen_generic(self) -> list[str]:
+		"""A generic class with 2-3 type parameters (declaration order independent of their spelling), instantiated with
+		different actual types, and locals whose types are inferred THROUGH the class (methods / fields typed by a type variable)."""
+		r = self.rng
+		n = r.randint(2, 3)
+		tvs = [self.names.take(['T', 'T_Val', 'T_Err', 'T_Key', 'TA', 'TB', 'K', 'V', 'T_b', 'T_a', 'U', 'T2', 'T1'], is_global=True) for _ in range(n)]
+		cls = self.names.cls()
+		fields = [self.names.member(set()).lstrip('_') or f'f{i}' for i in range(n)]
+		fields = [f if fields.count(f) == 1 else f'{f}{i}' for i, f in enumerate(fields)]
+		getters = [self.names.take(SEEDS, is_global=False, avoid=set(fields)) for _ in range(n)]
+		params = [self.names.var(set()) for _ in range(n)]
+		lines = [f"{tv} = TypeVar('{tv}')" for tv in tvs] + ['']
+		lines.append(f"class {cls}(Generic[{', '.join(tvs)}]):")
+		lines += [f'\t{f}: {tv}' for f, tv in zip(fields, tvs)] + ['']
+		lines.append(f"\tdef __init__(self, {', '.join(f'{p}: {tv}' for p, tv in zip(params, tvs))}) -> None:")
+		lines += [f'\t\tself.{f}: {tv} = {p}' for f, tv, p in zip(fields, tvs, params)] + ['']
+		for g, f, tv in zip(getters, fields, tvs):
+			lines += [f'\tdef {g}(self) -> {tv}:', f'\t\treturn self.{f}', '']
+		actual = r.sample(['int', 'str', 'float', 'bool'], n)
+		fn = self.names.gvar()
+		sn: set[str] = set()
+		inst = self.names.var(sn)
+		lines.append(f'def {fn}() -> None:')
+		lines.append(f"\t{inst} = {cls}[{', '.join(actual)}]({', '.join(self.lit(t) for t in actual)})")
+		for g, f in zip(getters, fields):
+			lines.append(f'\t{self.names.var(sn)} = {inst}.{g}()')
+			if r.random() < 0.5:
+				lines.append(f'\t{self.names.var(sn)} = {inst}.{f}')
+		lines.append('')
+		self.count('decl:generic-class')
+		return lines
+
 	def program(self) -> str:
 		r = self.rng
-		lines = ['from typing import Annotated, ClassVar', 'from enum import Enum', 'from collections.abc import Callable', 'from rogw.tranp.compatible.python.embed import Embed', '']
+		lines = ['from typing import Annotated, ClassVar, Generic, TypeVar', 'from enum import Enum', 'from collections.abc import Callable', 'from rogw.tranp.compatible.python.embed import Embed', '']
 		if r.random() < 0.65:
 			en = self.names.cls()
 			members = [self.names.cls() for _ in range(r.randint(2, 4))]
@@ -992,6 +1043,8 @@ class NestGen:
 			self.module_vars.append((n, ty))
 			self.count('decl:module-var')
 		lines.append('')
+		if r.random() < 0.45:
+			lines += self.gen_generic()
 		if r.random() < 0.7:
 			# a module-level function returning int, available to every body below
 			fname, pn = self.names.gvar(), self.names.var(set())
